@@ -61,3 +61,51 @@ theorem strip_idem (s : Str) : strip (strip s) = strip s := by
   rw [lstrip_rstrip_lstrip, rstrip_idem]
 
 end Pdt
+
+namespace Pdt
+
+/-! ### split / join -/
+
+theorem splitOn_ne_nil (sep : Char) (s : Str) : splitOn sep s ≠ [] := by
+  induction s with
+  | nil => simp [splitOn]
+  | cons c cs ih =>
+    unfold splitOn
+    split
+    · simp
+    · split <;> simp
+
+theorem splitOn_no_sep (sep : Char) (s : Str) (h : sep ∉ s) : splitOn sep s = [s] := by
+  induction s with
+  | nil => rfl
+  | cons c cs ih =>
+    have hc : c ≠ sep := fun e => h (by simp [e])
+    have hcs : sep ∉ cs := fun e => h (List.mem_cons_of_mem _ e)
+    simp [splitOn, hc, ih hcs]
+
+theorem splitOn_append_sep (sep : Char) (l r : Str) (h : sep ∉ l) :
+    splitOn sep (l ++ sep :: r) = l :: splitOn sep r := by
+  induction l with
+  | nil => simp [splitOn]
+  | cons c cs ih =>
+    have hc : c ≠ sep := fun e => h (by simp [e])
+    have hcs : sep ∉ cs := fun e => h (List.mem_cons_of_mem _ e)
+    simp [splitOn, hc, ih hcs]
+
+/-- `sep.join(xs).split(sep) == xs` for a non-empty list of separator-free strings -/
+theorem splitOn_joinWith (sep : Char) (xs : List Str) (hne : xs ≠ []) (h : ∀ x ∈ xs, sep ∉ x) :
+    splitOn sep (joinWith sep xs) = xs := by
+  induction xs with
+  | nil => exact absurd rfl hne
+  | cons x rest ih =>
+    cases rest with
+    | nil => simp [joinWith, splitOn_no_sep sep x (h x (by simp))]
+    | cons y ys =>
+      have hx := h x (by simp)
+      simp only [joinWith]
+      rw [splitOn_append_sep sep x _ hx, ih (by simp) (fun z hz => h z (List.mem_cons_of_mem _ hz))]
+
+/-- `"".split(sep) == [""]`: an empty line is one empty cell -/
+theorem splitOn_nil (sep : Char) : splitOn sep [] = [[]] := rfl
+
+end Pdt
